@@ -445,6 +445,22 @@ def curated_special():
     out.append(('class-template-twice', [
         ('rule', 'start', None, ('seq', [('call', 'CP', [('str', 'a'), ('py', '1')]), ('call', 'CP', [T, ('py', "'two'")])])),
         template_stmt('CP')]))
+    # a parameter spelled like an existing rule or class denotes the argument, not that rule
+    out.append(('param-shadows-rule', [
+        ('rule', 'start', None, ('seq', [('call', 'P', [('ref', 'Num')]), ('str', ','), ('call', 'P', [('str', 'x')]), ('opt', ('ref', 'Word'))])),
+        ('rule', 'P', ['Word'], ('seq', [('ref', 'Word'), ('opt', ('str', '!'))])),
+        ('rule', 'Word', None, ('re', '[ab]+', False)),
+        ('rule', 'Num', None, ('re', '[0-9]+', False))]))
+    out.append(('param-shadows-class', [
+        ('rule', 'start', None, ('seq', [('call', 'Q', [('ref', 'Num'), ('py', "'v'")]), ('opt', ('ref', 'K'))])),
+        ('rule', 'Q', ['K', 'Num2'], ('seq', [('plus', ('ref', 'K')), ('py', 'Num2')])),
+        ('class', 'K', None, [('field', 'w', ('re', '[ab]+', False))]),
+        ('rule', 'Num', None, ('re', '[0-9]', False))]))
+    out.append(('let-shadows-rule', [
+        ('rule', 'start', None, ('let', 'Word', ('re', '[0-9]', False), ('seq', [('ref', 'W2'), ('py', 'Word'), ('call', 'V', [('ref', 'Word')])]))),
+        ('rule', 'V', ['v'], ('seq', [T, ('py', "('v', v)")])),
+        ('rule', 'W2', None, ('ref', 'Word')),
+        ('rule', 'Word', None, ('re', '[ab]+', False))]))
     # bytes grammars: byte / bytes-string / bytes-regex arguments, value and parser use
     BT = ('bre', '[ab]', False)
     out.append(('byte-arg', [
